@@ -598,7 +598,11 @@ impl IsExecutableFile for VirtualSystem {
     fn is_executable_file(&self, path: &CStr) -> bool {
         let path = Path::new(UnixStr::from_bytes(path.to_bytes()));
         self.resolve_existing_file(AT_FDCWD, path, /* follow symlinks */ true)
-            .is_ok_and(|inode| inode.borrow().permissions.intersects(Mode::ALL_EXEC))
+            .is_ok_and(|inode| {
+                let inode = inode.borrow();
+                matches!(inode.body, FileBody::Regular { .. })
+                    && inode.permissions.intersects(Mode::ALL_EXEC)
+            })
     }
 }
 
